@@ -31,6 +31,10 @@ type ExecutionContext struct {
 	onceUp   sync.Once
 	onceDown sync.Once
 	mu       sync.Mutex
+
+	// the context of the runner that uses this execution context: its cancellation ends an up or a before
+	// command that is running. after and down commands clean up and always run to their end.
+	cancellable context.Context
 }
 
 // ExecutionContextOption is a functional option to configure ExecutionContext
@@ -60,7 +64,7 @@ func NewExecutionContext(executable *utils.Binary, dir string, env variables.Con
 func (c *ExecutionContext) Up() error {
 	c.onceUp.Do(func() {
 		for _, command := range c.up {
-			err := c.runServiceCommand(command)
+			err := c.runServiceCommand(c.interruptible(), command)
 			if err != nil {
 				c.mu.Lock()
 				c.startupError = err
@@ -77,7 +81,7 @@ func (c *ExecutionContext) Up() error {
 func (c *ExecutionContext) Down() {
 	c.onceDown.Do(func() {
 		for _, command := range c.down {
-			err := c.runServiceCommand(command)
+			err := c.runServiceCommand(context.Background(), command)
 			if err != nil {
 				logrus.Errorf("context cleanup error: %s", err)
 			}
@@ -88,7 +92,7 @@ func (c *ExecutionContext) Down() {
 // Before executes tasks defined to run before every usage of the context
 func (c *ExecutionContext) Before() error {
 	for _, command := range c.before {
-		err := c.runServiceCommand(command)
+		err := c.runServiceCommand(c.interruptible(), command)
 		if err != nil {
 			return err
 		}
@@ -100,7 +104,7 @@ func (c *ExecutionContext) Before() error {
 // After executes tasks defined to run after every usage of the context
 func (c *ExecutionContext) After() error {
 	for _, command := range c.after {
-		err := c.runServiceCommand(command)
+		err := c.runServiceCommand(context.Background(), command)
 		if err != nil {
 			return err
 		}
@@ -109,14 +113,32 @@ func (c *ExecutionContext) After() error {
 	return nil
 }
 
-func (c *ExecutionContext) runServiceCommand(command string) (err error) {
+// cancelWith makes the up and before commands end when ctx is cancelled
+func (c *ExecutionContext) cancelWith(ctx context.Context) {
+	c.mu.Lock()
+	c.cancellable = ctx
+	c.mu.Unlock()
+}
+
+func (c *ExecutionContext) interruptible() context.Context {
+	c.mu.Lock()
+	defer c.mu.Unlock()
+
+	if c.cancellable == nil {
+		return context.Background()
+	}
+
+	return c.cancellable
+}
+
+func (c *ExecutionContext) runServiceCommand(ctx context.Context, command string) (err error) {
 	logrus.Debugf("running context service command: %s", command)
 	ex, err := executor.NewDefaultExecutor(nil, nil, nil)
 	if err != nil {
 		return err
 	}
 
-	out, err := ex.Execute(context.Background(), &executor.Job{
+	out, err := ex.Execute(ctx, &executor.Job{
 		Command: command,
 		Dir:     c.Dir,
 		Env:     c.Env,
